@@ -329,3 +329,110 @@ Proof.
     rewrite A by (apply HN; now left). rewrite (B a b Hab). fold (ne_zsum (map (ne_elen (fst (ne_expand_core G flow (Some l))) l) (ne_pairs (ne_expand_path (b :: r))))).
     rewrite IH by (intros v Hv; apply HN; now right). cbn [map ne_zsum fold_right]. lia.
 Qed.
+
+(* ------------------------------------------------------------------ independence from the attributes of the caller's EDGES *)
+(* NodeExpandedDiGraph copies the data of an original edge (u, v) onto the connecting edge (u.1, v.0); such data may
+   even use the name of the node weight attribute ("decoy" values).  Neither the weights of the expanded instance
+   (the values on the node edges) nor edges_to_ignore depend on it. *)
+Lemma pred_fold_L_nodekey len n0 ps k nd : forall st,
+  ne_L (fst (fold_left (ne_pred_step len n0) ps st)) k (ne_node_key nd) = ne_L (fst st) k (ne_node_key nd).
+Proof.
+  assert (NK : forall p, (ne_exp1 p, n0) <> ne_node_key nd).
+  { intros p E. unfold ne_node_key in E. injection E as E _. symmetry in E. now apply exp0_neq_exp1 in E. }
+  induction ps as [|pe ps IH]; intros st; cbn [fold_left]; [reflexivity|].
+  rewrite IH. unfold ne_pred_step. cbn [fst].
+  destruct len as [l|]; [destruct (ne_dget (snd pe) l)|]; rewrite ?L_set_eattr_other by apply NK; now rewrite L_add_edge_other by apply NK.
+Qed.
+
+Lemma succ_fold_L_nodekey n1v ss k nd : forall g,
+  ne_L (fold_left (ne_succ_step (ne_exp1 n1v)) ss g) k (ne_node_key nd) = ne_L g k (ne_node_key nd).
+Proof.
+  induction ss as [|se ss IH]; intros g; cbn [fold_left]; [reflexivity|].
+  rewrite IH. unfold ne_succ_step. apply L_add_edge_other.
+  intros E. unfold ne_node_key in E. injection E as E _. symmetry in E. now apply exp0_neq_exp1 in E.
+Qed.
+
+Lemma node_step_L_foreign flow len st nd' nd k :
+  ne_nm nd' <> ne_nm nd ->
+  ne_L (fst (ne_node_step flow len st nd')) k (ne_node_key nd) = ne_L (fst st) k (ne_node_key nd).
+Proof.
+  intros Hne. unfold ne_node_step. cbn [fst]. rewrite succ_fold_L_nodekey, pred_fold_L_nodekey. cbn [fst].
+  assert (K : (ne_exp0 (ne_nm nd'), ne_exp1 (ne_nm nd')) <> ne_node_key nd).
+  { intros E. change (ne_node_key nd' = ne_node_key nd) in E. now apply node_key_inj in E. }
+  destruct (ne_dget (ne_at nd') flow); cbn [fst]; destruct len as [l|]; try destruct (ne_dget (ne_at nd') l);
+    rewrite ?L_set_eattr_other by exact K; rewrite L_add_edge_other by exact K; now rewrite !L_add_node.
+Qed.
+
+Lemma node_step_L_own_flow flow len st nd :
+  len <> Some flow -> ne_elook (fst st) (ne_node_key nd) = None ->
+  ne_L (fst (ne_node_step flow len st nd)) flow (ne_node_key nd) = ne_dget (ne_at nd) flow.
+Proof.
+  intros Hl Hnew. unfold ne_node_step. cbn [fst]. rewrite succ_fold_L_nodekey, pred_fold_L_nodekey. cbn [fst].
+  unfold ne_node_key in *. set (n0 := ne_exp0 (ne_nm nd)) in *. set (n1 := ne_exp1 (ne_nm nd)) in *.
+  set (g3 := ne_add_edge (ne_add_node (ne_add_node (fst st) n0 (ne_at nd)) n1 (ne_at nd)) n0 n1 (ne_at nd)).
+  assert (E3 : ne_elook g3 (n0, n1) <> None) by apply elook_add_edge_same.
+  assert (L3 : ne_dget (ne_at nd) flow = None -> ne_L g3 flow (n0, n1) = None).
+  { intros Hn. unfold g3. rewrite L_add_edge_nolen by exact Hn. rewrite !L_add_node. unfold ne_L. now rewrite Hnew. }
+  assert (Hk : forall l, len = Some l -> l <> flow) by (intros l -> E; apply Hl; now rewrite E).
+  destruct (ne_dget (ne_at nd) flow) as [x|] eqn:Ef; cbn [fst]; destruct len as [l|]; try destruct (ne_dget (ne_at nd) l);
+    rewrite ?L_set_eattr_otherkey by (apply Hk; reflexivity); try (now apply L_set_eattr_same); now apply L3.
+Qed.
+
+Lemma fold_L_foreign flow len G k nd : forall st,
+  (forall nd', In nd' G -> ne_nm nd' <> ne_nm nd) ->
+  ne_L (fst (fold_left (ne_node_step flow len) G st)) k (ne_node_key nd) = ne_L (fst st) k (ne_node_key nd).
+Proof.
+  induction G as [|nd0 G IH]; intros st Hd; cbn [fold_left]; [reflexivity|].
+  rewrite IH by (intros x Hx; apply Hd; now right). apply node_step_L_foreign. apply Hd. now left.
+Qed.
+
+Lemma fold_L_weights flow len G : forall st,
+  len <> Some flow -> NoDup (map ne_nm G) ->
+  (forall nd, In nd G -> ne_elook (fst st) (ne_node_key nd) = None) ->
+  forall nd, In nd G -> ne_L (fst (fold_left (ne_node_step flow len) G st)) flow (ne_node_key nd) = ne_dget (ne_at nd) flow.
+Proof.
+  induction G as [|nd0 G IH]; intros st Hl Hd Hnew nd Hin; [destruct Hin|].
+  cbn [fold_left]. cbn [map] in Hd. inversion Hd as [|? ? Hnot Hd']; subst.
+  destruct Hin as [<-|Hin].
+  - rewrite fold_L_foreign.
+    + apply node_step_L_own_flow; auto. apply Hnew. now left.
+    + intros x Hx E. apply Hnot. rewrite <- E. now apply in_map.
+  - apply IH; auto.
+    intros x Hx. apply elook_none_iff. intros Hk. apply node_step_keys in Hk. destruct Hk as [Hk|Hk].
+    + apply (proj1 (elook_none_iff (fst st) (ne_node_key x))); auto. apply Hnew. now right.
+    + revert Hk. apply node_key_not_in_keys. intros E. apply Hnot. rewrite <- E. now apply in_map.
+Qed.
+
+(* the weight of the expanded instance on the node edge of v is v's own value, whatever the caller's edges carry *)
+Theorem expand_weights G flow len nd :
+  NoDup (map ne_nm G) -> len <> Some flow -> In nd G ->
+  ne_L (fst (ne_expand_core G flow len)) flow (ne_exp0 (ne_nm nd), ne_exp1 (ne_nm nd)) = ne_dget (ne_at nd) flow.
+Proof.
+  intros Hd Hl Hin. unfold ne_expand_core. change (ne_exp0 (ne_nm nd), ne_exp1 (ne_nm nd)) with (ne_node_key nd).
+  apply fold_L_weights; auto.
+Qed.
+
+(* the same graph with all edge data removed *)
+Definition ne_strip (nd : ne_innode) : ne_innode :=
+  {| ne_nm := ne_nm nd; ne_at := ne_at nd;
+     ne_preds := map (fun pe => (fst pe, [])) (ne_preds nd); ne_succs := map (fun se => (fst se, [])) (ne_succs nd) |}.
+
+Lemma ign_of_node_strip flow nd : ne_ign_of_node flow (ne_strip nd) = ne_ign_of_node flow nd.
+Proof. unfold ne_ign_of_node, ne_strip. cbn [ne_nm ne_at ne_preds]. now rewrite map_map. Qed.
+
+Theorem expand_independent_of_edge_attributes G flow len len' :
+  NoDup (map ne_nm G) -> len <> Some flow -> len' <> Some flow ->
+  (* edges_to_ignore is literally the same list *)
+  snd (ne_expand_core G flow len) = snd (ne_expand_core (map ne_strip G) flow len') /\
+  (* and every node edge carries the same weight *)
+  (forall nd, In nd G ->
+     ne_L (fst (ne_expand_core G flow len)) flow (ne_node_key nd) = ne_L (fst (ne_expand_core (map ne_strip G) flow len')) flow (ne_node_key nd)).
+Proof.
+  intros Hd Hl Hl'. split.
+  - rewrite !expand_ignore_exact. induction G as [|nd G IH]; [reflexivity|]. cbn [map flat_map].
+    inversion Hd; subst. rewrite ign_of_node_strip, IH; auto.
+  - intros nd Hin. unfold ne_node_key. rewrite expand_weights by auto.
+    assert (Hd' : NoDup (map ne_nm (map ne_strip G))) by (rewrite map_map; exact Hd).
+    change (ne_exp0 (ne_nm nd), ne_exp1 (ne_nm nd)) with (ne_exp0 (ne_nm (ne_strip nd)), ne_exp1 (ne_nm (ne_strip nd))).
+    rewrite (expand_weights (map ne_strip G) flow len' (ne_strip nd)); auto. now apply in_map.
+Qed.
